@@ -134,7 +134,7 @@ def _ints(times):
 
 
 def _reps_for(times):
-    reps = ["list", "tuple", "strlist", "nparray_str", "npy", "txt", "ndarray"]
+    reps = ["list", "tuple", "strlist", "nparray_str", "npy", "txt", "ndarray", "npy_row", "txt_line"]
     if _ints(times):
         reps.append("intlist")
     if len(times) == 1:
@@ -189,11 +189,11 @@ def _invalid_reps(times):
 
 
 def _allowed(entry, rep):
-    if entry == "setter" and rep in ("strlist", "nparray_str", "npy", "txt"):
+    if entry == "setter" and rep in ("strlist", "nparray_str", "npy", "txt", "npy_row", "txt_line"):
         return False              # the setter takes numbers / sequences / arrays only
     if entry == "yaml" and rep in ("tuple", "ndarray"):
         return False              # no such YAML form
-    if entry == "replace" and rep in ("npy", "txt"):
+    if entry == "replace" and rep in ("npy", "txt", "npy_row", "txt_line"):
         return False              # replace() keeps `times`; giving a file as well is not a defined request
     return True
 
@@ -226,6 +226,13 @@ def enumerate_cases(tier, seed):
                     start = [0.0, 0.25, -1.0][(si + pi) % 3]
                     cases.append({"fam": "L", "times": times, "start": start, "nd": nd, "pattern": pat, "history": h,
                                   "det": "ccd", "entry": "ctor", "rep": "list", "inf": bool((si + pi) % 2)})
+    # the legacy entry point pyxel.exposure_mode on the same lifecycle cases (reduced product)
+    for si, times in enumerate(SCHEDULES):
+        for nd in (False, True):
+            for h in (("fresh", "full", "prefilled") if thorough else ("fresh", "full")):
+                cases.append({"fam": "L", "times": times, "start": [0.0, 0.25, -1.0][si % 3], "nd": nd,
+                              "pattern": list(ITEMS) if si % 2 else ["pixel"], "history": h, "det": "ccd",
+                              "entry": "ctor", "rep": "list", "api": "deprecated"})
     if not thorough:       # the two other histories on a reduced product
         for si, times in enumerate(SCHEDULES):
             for nd in (False, True):
@@ -308,9 +315,9 @@ def enumerate_cases(tier, seed):
 def expected_size(tier, seed):
     thorough = tier == "thorough"
     if thorough:
-        n_l = 31 * 2 * 128 * 5
+        n_l = 31 * 2 * 128 * 5 + 31 * 2 * 3
     else:
-        n_l = 31 * 2 * 10 * 2 + 31 * 2 * 3
+        n_l = 31 * 2 * 10 * 2 + 31 * 2 * 3 + 31 * 2 * 2
     n_d = 3 * 4 * 2 * 5 * 2 + (3 * 2 * 128 if thorough else 2 * 2 * 9)
     n_r = 0
     for si, times in enumerate(SCHEDULES):
@@ -368,6 +375,15 @@ def _rep_value(rep, times, tmp, tag="t"):
     if rep == "npy":
         p = os.path.join(tmp, f"{tag}_{_seed()}.npy")
         np.save(p, np.array(vals, dtype=float))
+        return "file", p
+    if rep == "npy_row":         # the times stored as one ROW of a 2-D array
+        p = os.path.join(tmp, f"{tag}r_{_seed()}.npy")
+        np.save(p, np.array([vals], dtype=float))
+        return "file", p
+    if rep == "txt_line":        # ... as one comma-separated line of a text table
+        p = os.path.join(tmp, f"{tag}l_{_seed()}.csv")
+        with open(p, "w") as fh:
+            fh.write(",".join(repr(float(v)) for v in vals) + "\n")
         return "file", p
     if rep == "txt":
         p = os.path.join(tmp, f"{tag}_{_seed()}.txt")
@@ -594,7 +610,14 @@ def run_case(case):
             stage = "history"
             make_history(det, case["history"], salt, case)
             stage = "run"
-            pyxel.run_mode(mode, det, pipe, with_inherited_coords=True)
+            if case.get("api") == "deprecated":
+                import warnings
+
+                with warnings.catch_warnings():
+                    warnings.simplefilter("ignore")
+                    pyxel.exposure_mode(mode, det, pipe)         # the legacy entry point (still public)
+            else:
+                pyxel.run_mode(mode, det, pipe, with_inherited_coords=True)
             stage = "done"
         except Exception as e:  # noqa: BLE001
             exc = e
